@@ -26,9 +26,9 @@ PROPS = {
             "quick": [{"config": "plain", "shards": 16, "args": {"n": 960}},
                       {"config": "tsan", "shards": 16, "args": {"n": 192}},
                       {"config": "asan", "shards": 16, "args": {"n": 192}}],
-            "thorough": [{"config": "plain", "shards": 16, "seeds": 3, "args": {"n": 40000}},
-                         {"config": "tsan", "shards": 16, "args": {"n": 8000}},
-                         {"config": "asan", "shards": 16, "args": {"n": 12000}}],
+            "thorough": [{"config": "plain", "shards": 16, "seeds": 2, "args": {"n": 20000}},
+                         {"config": "tsan", "shards": 16, "args": {"n": 3000}},
+                         {"config": "asan", "shards": 16, "args": {"n": 3000}}],
         },
     },
     "C31": {
@@ -45,9 +45,9 @@ PROPS = {
             "quick": [{"config": "plain", "shards": 16, "args": {"n": 960}},
                       {"config": "tsan", "shards": 16, "args": {"n": 192}},
                       {"config": "asan", "shards": 16, "args": {"n": 192}}],
-            "thorough": [{"config": "plain", "shards": 16, "seeds": 3, "args": {"n": 40000}},
-                         {"config": "tsan", "shards": 16, "args": {"n": 6000}},
-                         {"config": "asan", "shards": 16, "args": {"n": 10000}}],
+            "thorough": [{"config": "plain", "shards": 16, "seeds": 2, "args": {"n": 20000}},
+                         {"config": "tsan", "shards": 16, "args": {"n": 3000}},
+                         {"config": "asan", "shards": 16, "args": {"n": 3000}}],
         },
     },
 }
